@@ -1,6 +1,6 @@
 (* C01/C02 closed over every row of the generated tables and every admissible degree. *)
 From Coq Require Import ZArith Znumtheory Lia List Arith.
-From NTT Require Import Functors Algebra Layer Transform Rev Inverse Tables NTTInst NTTClosed NumTheoryMC TablesOK Shards C06Closed ScalarOps.
+From NTT Require Import Functors Algebra Layer Transform Rev Inverse Tables NTTInst NTTClosed NumTheoryMC TablesOK Shards C06Closed ScalarOps ScalarClosed.
 From NTT.gen Require Import Params.
 Import ListNotations.
 Local Open Scope Z_scope.
